@@ -10,7 +10,9 @@ import vp
 from vp import hx
 from c04 import enc_entries
 
-NAMES = ["a", "a.b", "c-1"]
+# layer names: plain, dotted (stem = another layer), and legal names with characters that are special somewhere else (quotes,
+# backslash, tab, leading / trailing space - "deps " and "deps" are two layers -, non-ASCII). A history uses three of them.
+NAMES = ["a", "a.b", "c-1", "deps", "deps ", " lead", "it's", 'q"x', "tab\tname", "é", "back\\slash", "a b"]
 SYMS = ["cK", "cD", "cE", "tK", "tR", "tE", "u", "wmG", "wmT", "we", "ws", "wx", "wf", "R", "bK"]
 WRITES = {"wmG", "wmT", "we", "ws", "wx", "wf"}
 SBOM_FORMATS = ["cdx", "spdx", "syft"]
@@ -455,13 +457,14 @@ def run_history(mon, base, hid, steps, names, sh, snapshots_out=None):
 def random_history(r, length):
     steps = []
     alive = set()
+    mine = NAMES[:3] if r.random() < 0.4 else r.sample(NAMES, 3)
     for _ in range(length):
         k = r.random()
         if k < 0.12:
             steps.append(concrete("R", r))
             alive.clear()
             continue
-        name = r.choice(NAMES)
+        name = r.choice(mine)
         if k < 0.5 or name not in alive:
             sym = r.choice(["cK", "cK", "cD", "cE", "tK", "tK", "tR", "tR", "tE", "u"])
             steps.append(concrete(sym, r, name))
@@ -560,6 +563,7 @@ def rich_shard(arg):
         os.makedirs(d)
     try:
         mon.call({"op": "init", "layers_dir": layers, "app_dir": os.path.join(root, "app"), "bp_dir": os.path.join(root, "bp")})
+        prev = {}       # layer name -> the value last written successfully
         for idx in idxs:
             r = vp.rng(seed, "c01-rich", idx)
             v = gen_rich(r)
@@ -577,7 +581,15 @@ def rich_shard(arg):
             if rep.get("write_err"):
                 # TOML integers are 64-bit signed: a u64 beyond that cannot be written, and saying so is the only acceptable outcome
                 if v["big"] > 2 ** 63 - 1:
-                    sh.nontrivial.add(("rich", "unrepresentable-integer-refused"))
+                    # ... and the layer is then what it was before the refused write: the same layer name has been used by earlier
+                    # cases of this shard, so the next request either restores the previous value (callback runs, Restored) or, for
+                    # the very first use, finds the freshly created layer without metadata of this type
+                    if "after_err" in rep or (prev.get(name) is not None and (rep.get("after_state") != {"restored": "kept"} or not rep.get("after_seen_some"))):
+                        sh.violation("rich:refused-write-damaged-layer", "%s: write_metadata correctly refused the value, but the next request for the layer no longer restores the "
+                                     "value written before (%r): state %r, error %r" % (what, prev.get(name), rep.get("after_state"), rep.get("after_err")), case)
+                        prev[name] = None
+                        continue
+                    sh.nontrivial.add(("rich", "unrepresentable-integer-refused", prev.get(name) is not None))
                 else:
                     sh.violation("rich:write-error", "%s: write_metadata failed: %s" % (what, rep.get("detail", "")[:300]), case)
                 continue
@@ -593,6 +605,7 @@ def rich_shard(arg):
             if not tomlw.same(doc.get("metadata"), tomlw.to_py(want)):
                 sh.violation("rich:content", "%s: <layer>.toml holds metadata %r, expected %r" % (what, doc.get("metadata"), want), case)
                 continue
+            prev[name] = v
             if rep["state"] != {"restored": "kept"} or not rep["callback_ran"] or not rep["restored_equal"]:
                 sh.violation("rich:restored-value", "%s: the next request reported %r (callback ran: %s) and its callback saw %s" % (what, rep["state"], rep["callback_ran"], rep["restored_debug"][:400]), case)
                 continue
